@@ -52,6 +52,10 @@ def renamed(m):
         f["expr"] = _rename_expr(f["expr"])
         if f["state"]:
             f["state"] = _rn(f["state"])
+        if f.get("alias_of"):
+            f["alias_of"] = _rn(f["alias_of"])
+        if f.get("kwonly"):
+            f["kwonly"] = [_rn(a) for a in f["kwonly"]]
     p = {}
     for k, val in mm["params"].items():
         if k == "shocks":
